@@ -10,7 +10,7 @@ LEVEL_TEXT = ('Every obligation generated from the current source of Heap.Swap/F
               'and the dispatch point proves from it that the chosen member is a minimum of the (load,index) order, is open unless every member is marked down, '
               'and has the fewest outstanding requests among up-marked members.')
 LEVEL_NOTE = ('Trusted: the pyvc encoding of python (DESIGN 2.4), z3/cvc5, assumed contracts of externs (random.randint, channel Close/AsyncProcessRequest, channel factory), '
-              'the assumed contract of _OpenNode (listed in the evidence; _FindNodeByEndpoint is proved). SCOPE: the hooks _OnGet/_OnPut/_OnNodeDown are taken by a behavioural contract weak enough for both balancers (heap invariant kept; outstanding counts, loads, endpoints, channels and the down list of existing nodes untouched; '
+              '(_FindNodeByEndpoint, _OpenNode and its completion callback are proved, no longer assumed). SCOPE: the hooks _OnGet/_OnPut/_OnNodeDown are taken by a behavioural contract weak enough for both balancers (heap invariant kept; outstanding counts, loads, endpoints, channels and the down list of existing nodes untouched; '
               'no up-marked member that holds requests is closed; members may be added or retired). HeapBalancerSink\'s own hooks are verified against it here; the ApertureBalancerSink overrides are verified against the same clause list by the C06 check '
               '(which also re-verifies __Get/__Put/_AsyncProcessRequestImpl under the aperture invariant), so the result holds for both balancers. '
               'Not proved: termination of __Get; that every down-marked member is on the down list (completeness of the resurrection scan); fewer than 2^31-3 outstanding requests per member is assumed.')
